@@ -1,12 +1,13 @@
 import Driver.Proto
 import Dawgs.Model.C14
 /-! Model driver for C14 (suite `c14`): runs the concrete model `B` on the same op lines as the Go
-harness (`harness/c14.go`). `mode fixed` switches to the repaired `DirectionBoth` definitions. -/
+harness (`harness/c14.go`). The live definitions are the repaired `DirectionBoth` ones (`fixed = true`);
+`mode old` / suite `c14old` run the pre-789c790 definitions (for the `…_old` replays). -/
 namespace Driver.C14
 open Dawgs.C14
 
 structure St where
-  fixed : Bool := false
+  fixed : Bool := true
   am : AdjMap := {}
   csrb : CsrB := {}
   ts : TS := {}
@@ -96,7 +97,7 @@ def step (st : St) (ts : List String) : St × String :=
   match ts with
   | ["graph"] => ({ fixed := st.fixed }, "ok")
   | ["mode", "fixed"] => ({ st with fixed := true }, "ok")
-  | ["mode", "current"] => ({ st with fixed := false }, "ok")
+  | ["mode", "old"] => ({ st with fixed := false }, "ok")
   | ["node", n] => match n.toNat? with
       | some n => ({ st with am := st.am.addNode n, csrb := st.csrb.addNode n, ts := st.ts.addNode n }, "ok")
       | none => (st, "bad-op")
@@ -172,10 +173,10 @@ def step (st : St) (ts : List String) : St × String :=
   | _ => (st, "bad-op")
 
 def suite : Suite := { σ := St, init := {}, step := step }
-/-- the same model started in `mode fixed` (selected by `MODEL_MODE` in lib/props/c14.py once the F2 fix is committed). -/
-def suiteFixed : Suite := { σ := St, init := { fixed := true }, step := step }
+/-- the same model started with the pre-repair definitions (selected by `VERIF_C14_MODE=old`). -/
+def suiteOld : Suite := { σ := St, init := { fixed := false }, step := step }
 
 end Driver.C14
 
 def Driver.C14.suites : List (String × Driver.Suite) :=
-  [("c14", Driver.C14.suite), ("c14fixed", Driver.C14.suiteFixed)]
+  [("c14", Driver.C14.suite), ("c14old", Driver.C14.suiteOld)]
